@@ -457,6 +457,25 @@ Theorem C18_other_template_render :
 Proof. exact @aux_render. Qed.
 Print Assumptions C18_other_template_render.
 
+(** EnqueueWatchingObjects: whether a source event enqueues the template depends on the SET of owners the cache
+    holds for the kind, not on the order in which it lists them, and not on owners other than the template
+    (other templates of its kind, owners of other kinds that share the cache): every watcher of the handler's
+    kind is enqueued whatever stands before it in the list. *)
+Theorem C18_enqueue_order_irrelevant :
+  forall (code : Type) (render : code -> data -> N -> rres) (scope_of : N -> option bool) (iv_res iv_opt : N)
+         (w : world code) (wl : list (N * N)) (s : step code),
+    Permutation.Permutation (w_watch w) wl -> (exists k d l, s = SPut k d l) \/ (exists k, s = SDel k) ->
+    snd (do_step render scope_of ns_escalation iv_res iv_opt (with_watch w wl) s) =
+    snd (do_step render scope_of ns_escalation iv_res iv_opt w s).
+Proof. exact @enqueue_order_irrelevant. Qed.
+Print Assumptions C18_enqueue_order_irrelevant.
+
+Theorem C18_enqueue_ignores_other_owners :
+  forall (kd kd' o' : N) (wl1 wl2 : list (N * N)), o' <> me ->
+    watched kd me (wl1 ++ (kd', o') :: wl2) = watched kd me (wl1 ++ wl2).
+Proof. exact enqueue_ignores_other_owners. Qed.
+Print Assumptions C18_enqueue_ignores_other_owners.
+
 (** Lifting: the observation a history makes at its last step is that step's result in the world the
     prefix leads to; so all clauses above speak about every step of every history. *)
 Theorem C18_history_observation :
